@@ -21,8 +21,12 @@ func (self ValueRange) Display() (string, *Interrupt) {
 }
 
 func (self ValueRange) IsEqual(other Value) (bool, *Interrupt) {
+	if other.Kind() != self.Kind() {
+		return false, nil
+	}
 	otherRange := other.(ValueRange)
-	return *self.Start == *otherRange.Start && *self.End == *otherRange.End, nil
+	// `1..5` and `1..=5` are different ranges
+	return *self.Start == *otherRange.Start && *self.End == *otherRange.End && self.EndIsInclusive == otherRange.EndIsInclusive, nil
 }
 
 func (self ValueRange) Fields() (map[string]*Value, *Interrupt) {
